@@ -10,7 +10,7 @@ def run(ck):
     ck.cov["explanation"] = ("Theorems (Lean, kernel-checked) cover zix's plumbing: the attribute carrying the requested stack size is the one handed to pthread_create, "
                              "SUCCESS iff pthread_create returned 0 (regenerated errno table), join status; composed with an ASSUMED pthread contract. The platform behaviour itself "
                              "is observed: pthread_* calls made by thread_posix.c are interposed to compare the call sequence and the attribute's stack size with the model, and "
-                             "real threads (1..16 concurrently, stacks from PTHREAD_STACK_MIN to 64 MiB) report pthread_getattr_np, touch the requested depth, count executions and "
+                             "real threads (1..16 concurrently, stacks from PTHREAD_STACK_MIN to 64 MiB, page-aligned and unaligned sizes) report pthread_getattr_np, touch the requested depth, count executions and "
                              "publish a plain write that the joiner reads after join.")
     ck.cov["rule"] = "create: sizes x forced pthread_create results; run: sizes x thread counts; non-trivial = stack size above the 8 MiB default or a forced error"
     ck.assumptions += ["pthread semantics are the platform's (modelled, not verified)", "glibc/Linux: default stack 8 MiB; PTHREAD_STACK_MIN 16 KiB"]
@@ -24,7 +24,9 @@ def run(ck):
     exe = ck.cc("h_c18", ["h_c18.c", os.path.join(REPO, "src/posix/thread_posix.c"), os.path.join(REPO, "src/errno_status.c")], flags=[WRAPS], libs=["-lpthread"], san=False)
     if not exe: return
     sizes = [16384, 32768, 65536, 1 << 20, 4 << 20, 8 << 20, (8 << 20) + 4096, 16 << 20, 32 << 20, 64 << 20]
-    lines = []
+    # sizes that are not a whole number of pages (glibc rounds an attribute's size down): the thread must still get at least the request
+    sizes += [16385, 20000, 65537, 100000, (1 << 20) + 1, (1 << 20) - 1, (8 << 20) + 123, (16 << 20) + 4095]
+    lines = ["create 18446744073709551615 EAGAIN", "create 18446744073709547521 EINVAL", "create 18446744073709547520 EINVAL"]
     for s in sizes:
         for r in ["ok", "EAGAIN", "EINVAL", "EPERM", "ENOMEM"]:
             lines.append("create %d %s" % (s, r)); ck.count_distinct(lines[-1], s > (8 << 20) or r != "ok")
